@@ -206,7 +206,9 @@ def main(tier: str, only: list[dict] | None = None) -> int:
     # design level: the lowering RULES themselves, model-checked (spec/PtLower.tla)
     design_states = 0
     if only is None:
-        for cfg in (["PtLower.cfg"] if tier == "quick" else ["PtLower.cfg", "PtLower3.cfg"]):
+        # (PtLowerB: broadcasting arithmetic, where, reductions, einsum, advanced indexing)
+        for cfg in (["PtLower.cfg", "PtLowerB.cfg"] if tier == "quick"
+                    else ["PtLower.cfg", "PtLower3.cfg", "PtLowerB.cfg"]):
             r = tlc.run_tlc("PtLower", cfg, workers=4, timeout=1200)
             if r.error or r.violated:
                 raise MachineryError(f"PtLower ({cfg}): the specification's own lowering rules "
